@@ -12,7 +12,10 @@ for d in sorted(glob.glob(os.path.join(V, 'seeded', 'C*'))):
     title = next((l.strip('# ').strip() for l in readme.splitlines() if l.strip() and not l.startswith('```')), '')[:110]
     caught = ', '.join('%s: %s' % (c, 'caught' if r['exit'] != 0 and r['violation_lines'] > 0 else 'not caught') for c, r in m.get('result', {}).items())
     how = '; '.join(sorted({x['kind'] + ' — ' + x['title'][:70] for x in m.get('first_reports', [])}))[:260]
-    rows.append('| %s | %s | %s | %s | %s |' % (os.path.basename(d), title.replace('|', '/'), 'yes' if m.get('confirmed_independently') else 'no', caught, how.replace('|', '/')))
+    conf = 'yes' if m.get('confirmed_independently') else 'no'
+    if m.get('obsolete_since'):      # the change stopped being a defect when /repo was repaired: see the note in its meta.json
+        conf, caught, how = 'until ' + m['obsolete_since'], 'obsolete: behaviour-preserving on the repaired tree, check silent (was caught before)', m.get('note', '')[:260]
+    rows.append('| %s | %s | %s | %s | %s |' % (os.path.basename(d), title.replace('|', '/'), conf, caught, how.replace('|', '/')))
 tab = '| seed | change (from its README) | confirmed | checks run | first reports |\n|---|---|---|---|---|\n' + '\n'.join(rows)
 p = os.path.join(V, 'DESIGN.md')
 s = open(p).read()
